@@ -157,7 +157,7 @@ struct Obs : Spectra::verif::Observer {
 static int forked(const std::function<void()>& body) {
     fflush(nullptr);
     pid_t p = fork();
-    if (p == 0) { int fd = open("/dev/null", 1); if (fd >= 0) { dup2(fd, 2); dup2(fd, 1); } body(); _exit(0); }
+    if (p == 0) { int fd = open("/dev/null", 1); if (fd >= 0) { dup2(fd, 2); dup2(fd, 1); } alarm(300); body(); _exit(0); }   // alarm: a nested run that does not terminate ends as a crash of this case
     int st = 0; waitpid(p, &st, 0);
     if (WIFSIGNALED(st)) return -WTERMSIG(st);
     return WEXITSTATUS(st);
